@@ -13,6 +13,7 @@ import (
 	"runtime"
 	"sort"
 	"strconv"
+	"strings"
 	"sync"
 	"sync/atomic"
 	"testing"
@@ -41,6 +42,8 @@ type vStep struct {
 	S     string          `json:"s"`
 	Auth  int             `json:"auth"`
 	EU    bool            `json:"eu"`
+	Lo    int             `json:"lo"`
+	Hi    int             `json:"hi"`
 	Xfer  vXfer           `json:"xfer"`
 	Err   string          `json:"err"`
 	Curr  string          `json:"curr"`
@@ -95,10 +98,15 @@ func vReplay(hist []vStep, shared bool) (step int, exp, act string) {
 		switch st.A {
 		case "open":
 			eu := st.EU
+			otr := tr
+			if st.Hi > st.Lo {
+				// regions mode (ControlRegions.tla): the gate's own time range
+				otr = telem.TimeRange{Start: telem.TimeStamp(100 + st.Lo), End: telem.TimeStamp(100 + st.Hi)}
+			}
 			g, tt, err := c.OpenGate(GateConfig[vRes]{
 				OpenResource:          func() (vRes, error) { return vRes{key: 7}, nil },
 				Subject:               xcontrol.Subject{Key: st.S, Name: st.S},
-				TimeRange:             tr,
+				TimeRange:             otr,
 				Authority:             xcontrol.Authority(st.Auth),
 				ErrOnUnauthorizedOpen: &eu,
 			})
@@ -113,7 +121,7 @@ func vReplay(hist []vStep, shared bool) (step int, exp, act string) {
 			_, t = gates[st.S].Release()
 			delete(gates, st.S)
 		}
-		if errc != st.Err {
+		if errc != st.Err && !(st.Err == "other" && strings.HasPrefix(errc, "other")) {
 			return i, "err=" + st.Err, "err=" + errc
 		}
 		got := vXfer{From: vStateOf(t.From), To: vStateOf(t.To)}
@@ -129,9 +137,11 @@ func vReplay(hist []vStep, shared bool) (step int, exp, act string) {
 		if got != want {
 			return i, fmt.Sprintf("xfer=%+v", want), fmt.Sprintf("xfer=%+v", got)
 		}
-		curr := vStateOf(c.LeadingState()).S
-		if curr != st.Curr {
-			return i, "curr=" + st.Curr, "curr=" + curr
+		if st.Curr != "" { // single-region mode only
+			curr := vStateOf(c.LeadingState()).S
+			if curr != st.Curr {
+				return i, "curr=" + st.Curr, "curr=" + curr
+			}
 		}
 		for s, open := range st.Open {
 			_, held := gates[s]
